@@ -283,7 +283,7 @@ def make_judge(chk: Check):
                 exp1 = tt.ref_nf(term)
                 if got_nfs != exp1:
                     viols.append(Viol("type-mismatch", where, {"annotation": g["src"], "expected": tt.show_nf(exp1), "stub": st.render() if st else None, "sig": sigkey}))
-            chk.case_ok(f"{pos}:{sigkey}")
+            chk.case_ok(f"{pos}:{sigkey}", ident=(pos, g["src"], bool(case.opts)))
             if got_nfs is not None:
                 per_term.setdefault(g["src"], {})[pos] = got_nfs
             if tt.depth(term) >= 3:
